@@ -113,6 +113,15 @@ pub struct Case {
     /// the members of the JSON envelope in another order (seed of the permutation)
     #[serde(default)]
     pub member_order: Option<u64>,
+    /// an additional, unknown envelope member of this name whose value mirrors the envelope of
+    /// the *unfaulted* base message ({protected, payload, signature, disclosures, kb_jwt}):
+    /// whatever a verifier might be tempted to read from `header`, `unprotected`, `signatures`
+    #[serde(default)]
+    pub mirror: Option<String>,
+    /// the JSON envelope in JWS General JSON Serialization with this many entries in
+    /// `signatures` (0 = no signature travels at all, 1 = the same triple as the flattened form)
+    #[serde(default)]
+    pub general: Option<u8>,
 }
 
 fn kb_absent() -> KbEnc {
@@ -747,7 +756,7 @@ impl<'a> Exec<'a> {
         // an unfaulted message travelling in the format it was produced in is delivered verbatim
         // (byte for byte what the issuer / holder returned), not re-serialised by the gateway
         let verbatim = match (self.raw_of(&case.base), self.base_msg(&case.base)) {
-            (Some((raw, native)), Some((b, _, _))) if native == fmt && &b == m && case.extra.is_empty() && case.kb_enc == KbEnc::Absent && !case.escapes && case.extra_raw.is_none() && case.member_order.is_none() => Some(raw),
+            (Some((raw, native)), Some((b, _, _))) if native == fmt && &b == m && case.extra.is_empty() && case.kb_enc == KbEnc::Absent && !case.escapes && case.extra_raw.is_none() && case.member_order.is_none() && case.mirror.is_none() && case.general.is_none() => Some(raw),
             _ => None,
         };
         if verbatim.is_some() {
@@ -765,9 +774,28 @@ impl<'a> Exec<'a> {
                 if !m.json_expressible() {
                     return None;
                 }
-                m.to_json(case.kb_enc, &case.extra)
+                let mut extra = case.extra.clone();
+                if let (Some(name), Some((b, _, _))) = (&case.mirror, self.base_msg(&case.base)) {
+                    let inner = json!({"protected": b.h, "payload": b.p, "signature": b.s, "disclosures": b.disclosures, "kb_jwt": b.kb});
+                    let v = if name == "signatures" { json!([inner]) } else { inner };
+                    extra.insert(0, (name.clone(), v));
+                    self.rep.count("fault.json_unknown_member_mirrors_envelope");
+                }
+                m.to_json(case.kb_enc, &extra)
             }
         };
+        if let (Some(n), Fmt::Json) = (case.general, fmt) {
+            if let Ok(Value::Object(mut o)) = serde_json::from_str::<Value>(&s) {
+                let h = o.shift_remove("protected");
+                let sg = o.shift_remove("signature");
+                if let (Some(h), Some(sg)) = (h, sg) {
+                    let one = json!({"protected": h, "signature": sg});
+                    o.insert("signatures".into(), Value::Array((0..n.min(1)).map(|_| one.clone()).collect()));
+                    s = Value::Object(o).to_string();
+                    self.rep.count(if n == 0 { "fault.json_general_serialization_without_signature" } else { "fault.json_general_serialization" });
+                }
+            }
+        }
         if let (Some(seed), Fmt::Json) = (case.member_order, fmt) {
             if let Ok(Value::Object(o)) = serde_json::from_str::<Value>(&s) {
                 let mut keys: Vec<String> = o.keys().cloned().collect();
@@ -901,6 +929,14 @@ impl<'a> Exec<'a> {
         };
         for wf in &case.wire {
             fired.push(wf.kind().to_string());
+        }
+        if case.fmt == Fmt::Json {
+            if let Some(n) = case.general {
+                fired.push(format!("json_general_serialization:{}", n.min(1)));
+            }
+            if case.mirror.is_some() {
+                fired.push("json_unknown_member_mirrors_envelope".into());
+            }
         }
         self.rep.evaluations += 1;
         self.c07(vo.res(), "verifier", case.base.clone(), Some(case));
